@@ -464,6 +464,33 @@ func (g *FnGen) havocLoc(env *Env, loc Expr) {
 		g.heapSet(g.cur, fam, fmt.Sprintf("(store %s %s %s)", h, sref(s.T), row))
 	case *EIndex:
 		g.havocLoc(env, &ESlice{X: l.X, Lo: l.I, Hi: &EBin{Op: "+", X: l.I, Y: &EInt{V: bigOne}}})
+	case *ECall:
+		// mapof(m): the contents of map m; elemsof(s): the elements of slice s
+		id, _ := l.Fn.(*EIdent)
+		if id == nil || len(l.Args) != 1 || (id.Name != "mapof" && id.Name != "elemsof") {
+			g.unsupported("assigns: cannot interpret %s", exprString(loc))
+		}
+		v := env.tr(l.Args[0])
+		switch u := typeUnder(v.GT).(type) {
+		case *types.Map:
+			pf, ps, vf, vs := g.mapFams2(u)
+			lf, ls := g.mapLenFam(u)
+			for _, fs := range [][2]string{{pf, ps}, {vf, vs}, {lf, ls}} {
+				h := g.heapGet(g.cur, fs[0], fs[1])
+				inner := strings.TrimSuffix(strings.TrimPrefix(fs[1], "(Array Int "), ")")
+				row := g.fresh("row", inner)
+				g.loopFrameCheck(fs[0], v.T, token.NoPos)
+				g.heapSet(g.cur, fs[0], fmt.Sprintf("(store %s %s %s)", h, v.T, row))
+			}
+		case *types.Slice:
+			fam, sort := g.elemFam(u.Elem())
+			h := g.heapGet(g.cur, fam, sort)
+			row := g.fresh("row", fmt.Sprintf("(Array %s %s)", g.idx(), g.sortOf(u.Elem())))
+			g.loopFrameCheck(fam, sref(v.T), token.NoPos)
+			g.heapSet(g.cur, fam, fmt.Sprintf("(store %s %s %s)", h, sref(v.T), row))
+		default:
+			g.unsupported("assigns: %s is neither a map nor a slice", exprString(l.Args[0]))
+		}
 	case *ESel:
 		x := env.tr(l.X)
 		p, ok := typeUnder(x.GT).(*types.Pointer)
@@ -473,6 +500,21 @@ func (g *FnGen) havocLoc(env *Env, loc Expr) {
 		st, ok := p.Elem().Underlying().(*types.Struct)
 		if !ok {
 			g.unsupported("assigns: %s is not a struct pointer", exprString(l.X))
+		}
+		if x.Addr != nil && x.Addr.Fam != "$struct" {
+			// interior pointer: havoc the field through the address
+			for i := 0; i < st.NumFields(); i++ {
+				if st.Field(i).Name() == l.Name {
+					na := *x.Addr
+					na.Path = append(append([]pathStep{}, x.Addr.Path...), pathStep{field: i, st: p.Elem()})
+					na.T = st.Field(i).Type()
+					nv := g.unknownOf("hv", na.T)
+					g.loopFrameCheck(na.Fam, na.Ref, token.NoPos)
+					g.store(g.cur, &na, nv.T)
+					return
+				}
+			}
+			g.unsupported("assigns: no field %s", l.Name)
 		}
 		for i := 0; i < st.NumFields(); i++ {
 			if st.Field(i).Name() == l.Name || l.Name == "$all" {
